@@ -140,6 +140,7 @@ type vLife struct {
 	config  func() error
 	feed    func(on bool) // hardware sending or silent (where it applies)
 	selfEnd func()        // make the source end itself now (where it applies)
+	nchan    int           // channel count for the next configure (sources where it can be chosen)
 	released func() bool  // have the (scripted) devices been released? (nil where it cannot be observed)
 	close   func()
 }
@@ -229,15 +230,17 @@ func vMakeLife(c *vCase, kind string, port int) *vLife {
 	case "triangle":
 		ts := NewTriangleSource()
 		l.ds, l.any = ts, &ts.AnySource
+		l.nchan = 3
 		l.config = func() error {
-			return ts.Configure(&TriangleSourceConfig{Nchan: 3, SampleRate: 200000, Min: 100, Max: 400})
+			return ts.Configure(&TriangleSourceConfig{Nchan: l.nchan, SampleRate: 200000, Min: 100, Max: 400})
 		}
 		l.workers = []string{"TriangleSource).StartRun"}
 	case "simpulse":
 		sp := NewSimPulseSource()
 		l.ds, l.any = sp, &sp.AnySource
+		l.nchan = 3
 		l.config = func() error {
-			return sp.Configure(&SimPulseSourceConfig{Nchan: 3, SampleRate: 200000, Pedestal: 100, Amplitudes: []float64{3000}, Nsamp: 800})
+			return sp.Configure(&SimPulseSourceConfig{Nchan: l.nchan, SampleRate: 200000, Pedestal: 100, Amplitudes: []float64{3000}, Nsamp: 800})
 		}
 		l.workers = []string{"SimPulseSource).StartRun"}
 	case "erroring":
@@ -682,14 +685,27 @@ func vRunLife(c *vCase) {
 				x.stop(1)
 				x.afterStop()
 			}
-		case 5: // a request left pending while the source stops
+		case 5: // a request left pending while the source stops; a raw-data block still being acquired at Stop
 			if x.start(true) {
+				if f, err := os.CreateTemp(c.Dir, "raw_*_inprogress.npz"); err == nil {
+					x.request(func() { l.any.ArchiveDataBlock(1<<22, f, f.Name()+".done") }) // far more than will arrive
+					c.Cov("stop_with_unfinished_raw_block", 1)
+					x.note("raw-data block of 2^22 samples requested")
+					p1 := atomic.LoadInt64(&ord.process)
+					for i := 0; i < 2000 && atomic.LoadInt64(&ord.process) < p1+3; i++ {
+						time.Sleep(time.Millisecond) // some blocks go into the unfinished archive
+					}
+				}
 				pending := make(chan bool, 1)
 				go func() { pending <- x.request(func() { time.Sleep(2 * time.Millisecond) }) }()
 				x.stop(1)
 				<-pending
 				c.Cov("stop_with_pending_request", 1)
 				x.afterStop()
+				if l.nchan > 0 {
+					l.nchan = 2 // the same object is configured differently for the next run
+					x.note("next run with %d channels", l.nchan)
+				}
 			}
 		}
 	}
